@@ -3,6 +3,7 @@
 import json, os, glob, re, collections
 ROOT = os.path.dirname(os.path.dirname(os.path.abspath(__file__)))
 metas = [json.load(open(f)) for f in sorted(glob.glob(os.path.join(ROOT, "seeded", "*", "meta.json")))]
+metas.sort(key=lambda m: (int(m["id"].split("-")[0][1:]), m["id"]))
 own = json.load(open(os.path.join(ROOT, "selftest", "own_results.json")))
 notkept = json.load(open(os.path.join(ROOT, "selftest", "not_kept.json"))) if os.path.exists(os.path.join(ROOT, "selftest", "not_kept.json")) else []
 out = []
